@@ -10,7 +10,7 @@ ID = 'C18'
 LEVEL = 'model_checking'
 RULE = ('every base tree with <= E entries and <= 3 directories plus depth-4 chains, decorated with one link in every '
         'directory position x every target {directory beside the link, the link\'s own directory, its parent, the root, the '
-        'link itself, a directory outside the root, directories above the root, a file, nothing (dangling), another link} x '
+        'link itself, a directory outside the root, directories above the root, a file, nothing (dangling), another link, chains link->link->dir and link->link->link->dir whose final directory is reachable in no other way} x '
         '{absolute, relative-to-link-directory} spelling, and every pair of links of the cyclic families (mutual pair, chain, '
         'ancestor + sibling); x root in {., relative, absolute, cwd one level above the root} x {bfs, dfs} x windows {none, '
         'maxdepth 1..3} x symlinks on/off x readdir order {sorted, reversed}; non-trivial = following the link changes the '
@@ -69,7 +69,7 @@ def subtree(tree, rel):
     return cur
 
 
-TARGETS = ['beside', 'owndir', 'parent', 'root', 'self', 'outside', 'above1', 'above2', 'file', 'dangling', 'chain']
+TARGETS = ['beside', 'owndir', 'parent', 'root', 'self', 'outside', 'above1', 'above2', 'file', 'dangling', 'chain', 'chain2', 'chain3']
 
 
 def decorate(tree, ldir, target, spelling):
@@ -109,6 +109,10 @@ def decorate(tree, ldir, target, spelling):
     elif target == 'chain':
         here['L2'] = L(up + '../../outside' if spelling == 'rel' else os.path.normpath(os.path.join(ROOT, '../../outside')))
         rel, ab = 'L2', os.path.join(ROOT, ldir, 'L2')
+    elif target in ('chain2', 'chain3'):
+        # link -> link (outside the searched tree) [-> link] -> directory reachable in no other way
+        name = 'cl' if target == 'chain2' else 'cl3'
+        rel, ab = up + '../../' + name, os.path.normpath(os.path.join(ROOT, '../../' + name))
     here['L'] = L(rel if spelling == 'rel' else ab)
     return t
 
@@ -125,20 +129,29 @@ def pairs(tier):
 
 
 def configs(tier, windows_ok):
-    roots = ['dot', 'rel', 'abs', 'above']
-    for r in roots:
+    if tier == 'quick':
+        w2 = [2] if windows_ok else []
+        out = []
+        for mode in ('', 'dfs'):
+            for w in [None] + w2:
+                out.append({'root': 'dot', 'mode': mode, 'sym': True, 'max': w, 'rd': 'sorted'})
+            out.append({'root': 'dot', 'mode': mode, 'sym': True, 'max': None, 'rd': 'rev'})
+        out.append({'root': 'dot', 'mode': '', 'sym': False, 'max': None, 'rd': 'sorted'})
+        out.append({'root': 'rel', 'mode': '', 'sym': True, 'max': None, 'rd': 'sorted'})
+        out.append({'root': 'abs', 'mode': 'dfs', 'sym': True, 'max': None, 'rd': 'sorted'})
+        for w in w2:
+            out.append({'root': 'abs', 'mode': '', 'sym': True, 'max': w, 'rd': 'sorted'})
+        out.append({'root': 'above', 'mode': '', 'sym': True, 'max': None, 'rd': 'sorted'})
+        out.append({'root': 'above', 'mode': 'dfs', 'sym': False, 'max': None, 'rd': 'sorted'})
+        return out
+    out = []
+    for r in ('dot', 'rel', 'abs', 'above'):
         for mode in ('', 'dfs'):
             for sym in (True, False):
-                ws = [None] + ([1, 2, 3] if windows_ok else [])
-                if tier == 'quick':
-                    ws = [w for w in ws if w in (None, 2)]
-                for w in ws:
+                for w in [None] + ([1, 2, 3] if windows_ok else []):
                     for rd in ('sorted', 'rev'):
-                        if tier == 'quick' and rd == 'rev' and (r not in ('dot',) or not sym):
-                            continue
-                        if tier == 'quick' and not sym and (r != 'dot' or w):
-                            continue
-                        yield {'root': r, 'mode': mode, 'sym': sym, 'max': w, 'rd': rd}
+                        out.append({'root': r, 'mode': mode, 'sym': sym, 'max': w, 'rd': rd})
+    return out
 
 
 def groups(tier, seed):
@@ -213,7 +226,8 @@ def eval_group(env, group, tier):
     os.makedirs(os.path.join(holder, 'real'))
     troot = os.path.join(holder, 'real', 't')
     os.mkdir(troot)
-    core.materialise(os.path.join(holder), {'outside': D({'o1': F(1), 'od': D({'o2': F(1)})})})
+    core.materialise(os.path.join(holder), {'outside': D({'o1': F(1), 'od': D({'o2': F(1)})}), 'only2': D({'p1': F(1), 'pd': D({'p2': F(1)})}),
+                                            'only3': D({'q1': F(1)}), 'cl': L('only2'), 'cl3': L(os.path.join(holder, 'mid')), 'mid': L('only3')})
     core.materialise(troot, fix_root(group['tree'], troot))
     outs = []
     only = group.get('only')
